@@ -21,6 +21,7 @@ def run(ctx):
     SM.c01_typestate(ctx, M)
     SM.c01_single_source(ctx, M)
     BR.exactlen_table(ctx, "C01.R3")
+    BR.exactlen_ctor_passthrough(ctx, "C01.R3.ctor")
     MP.length_sum(ctx, "C01.R4")
     MP.stream_accounting(ctx, "C01.R5")
     MP.correspondence(ctx, "C01.R6")
